@@ -340,17 +340,35 @@ func Add(a, b *Term) *Term {
 	if a.IsInt() && b.IsInt() {
 		return BigC(new(big.Int).Add(a.Val, b.Val))
 	}
+	if a.IsInt() && !b.IsInt() {
+		a, b = b, a
+	}
+	// (x + c1) + c2  /  (x - c1) + c2
+	if b.IsInt() && (a.Op == "+" || a.Op == "-") && a.Args[1].IsInt() {
+		c := new(big.Int).Set(a.Args[1].Val)
+		if a.Op == "-" {
+			c.Neg(c)
+		}
+		c.Add(c, b.Val)
+		return Add(a.Args[0], BigC(c))
+	}
 	if a.IsInt() && a.Val.Sign() == 0 {
 		return b
 	}
 	if b.IsInt() && b.Val.Sign() == 0 {
 		return a
 	}
+	if b.IsInt() && b.Val.Sign() < 0 {
+		return TS.mk("-", SInt, "", nil, a, BigC(new(big.Int).Neg(b.Val)))
+	}
 	return TS.mk("+", SInt, "", nil, a, b)
 }
 func Sub(a, b *Term) *Term {
 	if a.IsInt() && b.IsInt() {
 		return BigC(new(big.Int).Sub(a.Val, b.Val))
+	}
+	if b.IsInt() && !a.IsInt() {
+		return Add(a, BigC(new(big.Int).Neg(b.Val)))
 	}
 	if b.IsInt() && b.Val.Sign() == 0 {
 		return a
@@ -561,6 +579,7 @@ func rebuild(t *Term, a []*Term) *Term {
 // ---------- printing ----------
 
 type printer struct {
+	fb    map[*Term]map[*Term]bool
 	refs  map[*Term]int
 	names map[*Term]string
 	vars  map[string]*Term
@@ -585,22 +604,41 @@ func (p *printer) count(t *Term) {
 	}
 }
 
+// hasBound reports whether t has a free occurrence of a quantifier-bound variable.
 func (p *printer) hasBound(t *Term, memo map[*Term]bool) bool {
-	if v, ok := memo[t]; ok {
-		return v
+	return len(p.freeBound(t)) > 0
+}
+
+func (p *printer) freeBound(t *Term) map[*Term]bool {
+	if p.fb == nil {
+		p.fb = map[*Term]map[*Term]bool{}
 	}
-	r := false
+	if r, ok := p.fb[t]; ok {
+		return r
+	}
+	var r map[*Term]bool
 	if p.bound[t] {
-		r = true
+		r = map[*Term]bool{t: true}
 	} else {
 		for _, a := range t.Args {
-			if p.hasBound(a, memo) {
-				r = true
-				break
+			fa := p.freeBound(a)
+			if len(fa) == 0 {
+				continue
+			}
+			if r == nil {
+				r = map[*Term]bool{}
+			}
+			for k := range fa {
+				r[k] = true
+			}
+		}
+		if len(t.Bound) > 0 && r != nil {
+			for _, b := range t.Bound {
+				delete(r, b)
 			}
 		}
 	}
-	memo[t] = r
+	p.fb[t] = r
 	return r
 }
 
@@ -639,11 +677,7 @@ func (p *printer) expr(t *Term, hb map[*Term]bool) string {
 			s = "(" + strings.Join(parts, " ") + ")"
 		}
 	case "forall", "exists":
-		var bs []string
-		for _, b := range t.Bound {
-			bs = append(bs, "("+b.Name+" "+b.S.String()+")")
-		}
-		s = "(" + t.Op + " (" + strings.Join(bs, " ") + ") " + p.expr(t.Args[0], hb) + ")"
+		s = p.quant(t, hb, map[*Term]string{})
 	default:
 		parts := []string{t.Op}
 		for _, a := range t.Args {
@@ -659,6 +693,65 @@ func (p *printer) expr(t *Term, hb map[*Term]bool) string {
 		return n
 	}
 	return s
+}
+
+// quant prints a quantifier; shared subterms that mention bound variables are bound with let (no exponential unfolding).
+func (p *printer) quant(t *Term, hb map[*Term]bool, outer map[*Term]string) string {
+	local := map[*Term]string{}
+	for k, v := range outer {
+		local[k] = v
+	}
+	type bind struct{ n, e string }
+	var binds []bind
+	var rec func(u *Term) string
+	rec = func(u *Term) string {
+		if n, ok := p.names[u]; ok {
+			return n
+		}
+		if n, ok := local[u]; ok {
+			return n
+		}
+		if !p.hasBound(u, hb) {
+			return p.expr(u, hb)
+		}
+		var str string
+		switch u.Op {
+		case "var":
+			return u.Name
+		case "forall", "exists":
+			str = p.quant(u, hb, local)
+		case "const-array":
+			str = "((as const " + u.S.String() + ") " + rec(u.Args[0]) + ")"
+		case "uf":
+			parts := []string{u.Name}
+			for _, a := range u.Args {
+				parts = append(parts, rec(a))
+			}
+			str = "(" + strings.Join(parts, " ") + ")"
+		default:
+			parts := []string{u.Op}
+			for _, a := range u.Args {
+				parts = append(parts, rec(a))
+			}
+			str = "(" + strings.Join(parts, " ") + ")"
+		}
+		if p.refs[u] > 1 && len(u.Args) > 0 && u.Op != "forall" && u.Op != "exists" {
+			n := fmt.Sprintf("l!%d", u.ID)
+			binds = append(binds, bind{n, str})
+			local[u] = n
+			return n
+		}
+		return str
+	}
+	body := rec(t.Args[0])
+	for i := len(binds) - 1; i >= 0; i-- {
+		body = "(let ((" + binds[i].n + " " + binds[i].e + ")) " + body + ")"
+	}
+	var bs []string
+	for _, b := range t.Bound {
+		bs = append(bs, "("+b.Name+" "+b.S.String()+")")
+	}
+	return "(" + t.Op + " (" + strings.Join(bs, " ") + ") " + body + ")"
 }
 
 // SMTScript renders assertions as a complete SMT-LIB2 script (check-sat + get-model).
